@@ -640,6 +640,15 @@ def write_evidence(prop, tier, seed, results, key, wall, n_viol, undecided):
     all_pc = all(r['label'] in ('P', 'C') for r in core) and len(core) > 0
     sampled = sum(r.get('evaluated') or 0 for r in results.values() if r['engine'] == 'native')
     level = 'proof' if all_pc else 'other'
+    try:
+        man = json.load(open(os.path.join(VERIF, 'MANIFEST.json')))
+        claimed = [c['level_claimed']['category'] for c in man['checks'] if c['property_id'] == prop]
+        if claimed:
+            # the level is the one claimed in MANIFEST.json; a 'proof' claim is only honoured when
+            # every non-supplementary obligation really is P or C
+            level = claimed[0] if (claimed[0] != 'proof' or all_pc) else 'other'
+    except Exception:
+        pass
     bounds = sorted(set('%s: %s' % (r['name'], r['bound']) for r in results.values() if r.get('bound')))
     trusted = [
         'rustc MIR -> Kani 0.68 GOTO translation, CBMC 6.11 + CaDiCaL; Kani models of alloc/dealloc and x86 SIMD intrinsics',
